@@ -4,6 +4,7 @@ CONSTANTS
   MaxLines = 4
   LimitN = 5
   MaxFds = 0
+  DeferPop = FALSE
   Guided = FALSE
   TSet = {1, 5, 8, 11, 12, 14, 15, 19, 21, 22, 23, 24}
 INVARIANTS Refines StructOK FreshAfterError BodyBound ContinueRule FilesOrdered AttachRule Witnesses
